@@ -24,6 +24,12 @@ CLAIMED = {
    text="Proof: 28 shape theorems, one per rule of the bundled grammar, stated about RuschmGen/Grammar.lean (regenerated from /repo/src/parser/grammar.sld on every run, self-checked against the model's reader and the real parser): for all sub-forms and lengths the expansion is exactly the expected core datum, with the side conditions rule order forces; any edit of grammar.sld re-opens them. Meaning is tied by running programs with ticking sub-forms in every position of begin/let/let*/cond/case/and/or/when/unless on the real interpreter, the model, and against the same program desugared by an independent R7RS desugarer (values and evaluation traces equal). Hygiene limits (capture of x/temp/atom-key) are documented known limits excluded from the generator."),
  "C12": dict(design="5/C12", technique="Lean 4 theorems (evalImportSet = declarative denotation for every term, simultaneous rename, union, independence of export-list order for admissible declarations) about RuschmModel/Interp.lean + exhaustive depth<=2 term correspondence in 3 processes + Python algebra oracle",
    text="Proof: kernel-checked theorems about the executable model of eval_import/eval_import_set: every import-set term (any nesting) denotes S.transform applied to the library's exports, rename is simultaneous, only-after-rename uses the new names, several sets contribute the union, and for admissible declarations the resulting bindings do not depend on the export-list (HashMap) order; without admissibility the order matters (closed witness). Tie: every operator at depth 1, sampled/all pairs at depth 2 over a 4-export native library, each in 3 processes with different hash seeds, real interpreter vs model vs an independent Python implementation of the algebra."),
+ "C01": dict(design="5/C01", technique="Lean 4 refinement theorem (trampolined evaluator refines a direct-style reference evaluator, both directions for values, by mutual induction on fuel with the pending-tail-call invariant) + lookup/operands/truthiness/body/spelling theorems about RuschmModel/Eval.lean,Xform.lean + random program correspondence with tick traces + spelling-equivalence oracle",
+   text="Proof: kernel-checked theorems about the executable model of interpreter.rs: lookup returns the innermost binding on the frame chain; operands are evaluated once, left to right, before the call; only #f is false; internal definitions are evaluated in order in the call frame; rest binding, apply spreading and define-sugar vs lambda are equivalent spellings; MAIN: whatever the trampolined evaluator returns (value or error, and the store) a direct-style reference evaluator with one apply rule returns too, and conversely for values (model_refines_ref / ref_refines_model), for every expression, store and fuel. Tie: type-directed random programs with ticking sub-expressions on the real interpreter and the model (values, error kinds and locations, evaluation traces), each program also rendered in four equivalent spellings that must agree on the real interpreter."),
+ "C13": dict(design="5/C13", technique="Lean 4 theorems (exports_exact, library frame is a fresh root, importer redefinition harmless via chain disjointness, single_instance through the instance cache, instances only grow) about RuschmModel/Interp.lean + random library-file scenarios vs a Python single-instance simulation",
+   text="Proof: kernel-checked theorems about the executable model of eval_library_definition/get_library: a library yields exactly the external names of its export specs bound to the internal values; its frame is a fresh root on no other frame's chain (so it sees only its own imports and definitions and the importer never sees unexported names); define/set! in the importer leave every lookup from library frames unchanged; a successfully loaded library is cached and every later import returns the same values (closures over the same frame) without evaluating anything. Tie: random scenarios of stateful and wrapper library FILES plus an importing program, real interpreter vs model vs a Python simulation with one shared counter per library."),
+ "C14": dict(design="5/C14", technique="Lean 4 theorems about an abstract loader with the control structure of the code (termination on every graph, in-progress set restored after any outcome, cache soundness, ok iff reachable-healthy-acyclic, cyclic iff DFS meets an in-progress node first, diamond, history independence) + bridge theorems about RuschmModel/Interp.lean + exhaustive small library graphs x histories as files and registered sources vs a Python DFS",
+   text="Proof: kernel-checked theorems: the loader terminates on every dependency graph (fuel |g|+1 never runs out), restores the in-progress set after ANY outcome, caches only successful loads, succeeds iff every reachable node is healthy and no cycle is reachable, reports a cycle iff the depth-first traversal meets an in-progress node before any other fault (otherwise the first fault in DFS order), treats diamonds as non-cycles, and the outcome of an import is independent of any history of earlier attempts; the model's evalImportSet restores inProgress for every term/state/fuel and getLibrary consults files only at the program-relative path. Tie: all 1-2 node configurations x all histories of 3 attempts and sampled/all 3-node configurations x histories of 2, as files under a program directory that is not the cwd and as registered sources, real interpreter vs model vs a Python reference DFS."),
 }
 
 NOT_YET = "check not built yet (work in progress; DESIGN.md section 10 gives the order of work)"
